@@ -21,7 +21,7 @@ NA = {
 TECH = "deterministic simulation with fault injection (seeded op-and-fault histories on live objects, {oracle}, ddmin shrinking, replay files)"
 CHECKS = {
  "C08": ("fault_enumeration",
-   "For every sampled world and target call getB/H/J/M (all entry points, all argument combinations), every reachable crash site is exercised: each named fault point in getBH_level2 x MemoryError/KeyboardInterrupt, each invocation of each scripted CustomSource callback x raise/None/wrong shape/list/scalar/in-place mutation, field-not-implemented, FP errors raised, warnings as errors, pandas missing, and (sys.settrace) a KeyboardInterrupt at every executed line of the field_wrap_BH functions outside finally/except bodies. The iteration order of the tiled-object set is decided by the simulator. Oracle: whole world (generic walk over vars of every object, incl. style values, whether the lazily created style object exists, and pending style kwargs) and every caller array/list/container bitwise unchanged after each call, returned or raised, and the disarmed call returns the baseline bitwise. Enumeration of crash points per sampled call; sampling over worlds and calls.",
+   "For every sampled world and target call getB/H/J/M (all entry points, all argument combinations), every reachable crash site is exercised: each named fault point in getBH_level2 x MemoryError/KeyboardInterrupt, each invocation of each scripted CustomSource callback x raise/None/wrong shape/list/scalar/in-place mutation, field-not-implemented, FP errors raised, warnings as errors, pandas missing, and (sys.settrace) a KeyboardInterrupt at every executed line of the field_wrap_BH functions outside finally/except bodies. The iteration order of the tiled-object set is decided by the simulator. Oracle: whole world (generic walk over every attribute an object has by construction or gets from a non-field operation - private memos that only a field computation creates are not object state -, incl. style values, whether the lazily created style object exists, and pending style kwargs) and every caller array/list/container bitwise unchanged after each call, returned or raised, and the disarmed call returns the baseline bitwise. Enumeration of crash points per sampled call; sampling over worlds and calls.",
    "Trusted: the snapshot encoder (generic over vars(obj)), the six add-only fault points standing for allocation failures/interrupts, single-shot fault assumption (recovery runs fault free), world reuse between variants justified by the bitwise post==pre check (10% of runs rebuild twins by replay instead).",
    "bitwise world-snapshot oracle + per-call crash-site enumeration", "DESIGN.md §3 C08"),
  "C09": ("exploration",
